@@ -222,6 +222,7 @@ MUTANTS['C04'] = [
 ]
 
 MUTANTS['C05'] = [
+  ('keyed-parmap-passes-a-running-iterator', [(C, "                _KeyedIterable(self.input_dataset),", "                self.input_dataset.__iter__(with_key=True),")]),
   ('map-iter-keeps-input-iterator-in-a-local', [(C, "            for v in self.input_dataset:\n                yield self.map_function(v)\n\n    def keys(self):", "            iterator = iter(self.input_dataset)\n            for v in iterator:\n                yield self.map_function(v)\n\n    def keys(self):")]),
   ('stp-sentinel-guard-removed', [(P, "            if not shutdown:\n                # This is not necessary", "            if True:\n                # This is not necessary")]),
   ('stp-drain-loop-removed', [(P, "            while True:\n                data_queue.get_nowait()", "            pass")]),
